@@ -909,7 +909,7 @@ def make_refuse(prog):
 
 def make_only(prog):
     """C12 clause 3: restore --only S restores exactly the entries under S (whole components), identical to a full restore."""
-    names = ['/a', '/a.b', '/ab', '/a/x', '/a/sub', '/a/sub/y', '/a.b/z', '/é', '/é/w', '/éé']
+    names = ['/a', '/a.b', '/ab', '/a/x', '/a/sub', '/a/sub/y', '/a/sub/deep', '/a/sub/deep/w', '/a.b/z', '/é', '/é/w', '/éé']
 
     def mk_():
         res = {'bad': [], 'samples': []}
@@ -917,7 +917,7 @@ def make_only(prog):
         def h(ex):
             st, ar = A.new_archive(ex)
             fs = setup_fs(ex, 'absent')
-            kinds = {'/a': 'Dir', '/a.b': 'Dir', '/ab': 'File', '/a/x': 'File', '/a/sub': 'Dir', '/a/sub/y': 'File', '/a.b/z': 'File',
+            kinds = {'/a': 'Dir', '/a.b': 'Dir', '/ab': 'File', '/a/x': 'File', '/a/sub': 'Dir', '/a/sub/y': 'File', '/a/sub/deep': 'Dir', '/a/sub/deep/w': 'File', '/a.b/z': 'File',
                      '/é': 'Dir', '/é/w': 'File', '/éé': 'File'}
             order = sorted(names, key=lambda p: B.apath_key(p))
             entries = [E('/', 'Dir', mode=0o755, sec=1)]
